@@ -210,10 +210,16 @@ GUARDS = [
     ("roots_constraint_under_multiple_shooting", "multiple_shooting.py", "MultipleShooting", "add_constraints", "raise_if", ["integrator_roots"]),
     ("roots_constraint_under_single_shooting", "single_shooting.py", "SingleShooting", "add_constraints", "raise_if", ["integrator_roots"]),
     ("spline_time_varying_or_nonlinear", "spline_method.py", "SplineMethod", None, "raise_any", ["linear"]),
+    ("inf_unsupported_operation", "casadi_helpers.py", None, "reinterpret_expr", "raise_any", ["not supported"]),
 ]
 
 
 def _find_function(tree, cls, fn):
+    if cls is None:
+        for node in tree.body:
+            if isinstance(node, ast.FunctionDef) and node.name == fn:
+                return node
+        return None
     for node in tree.body:
         if isinstance(node, ast.ClassDef) and node.name == cls:
             if fn is None:
